@@ -26,12 +26,16 @@ Fixpoint first_clean_log (sp : space) (motif_of : nat -> space) (blocks : list (
 (* twin of Blocks.block_level that threads the diagram in exactly the same way and returns
    (log of examined blocks, nodes whose seeds/sets were set to []) *)
 Fixpoint block_level_log (N : net) (cfg : config) (check_maa opt_src : bool) (size_limit : option nat)
-         (d : sd) (cur : list nat) (next : list nat) (tape : list bool)
+         (d : sd) (cur : list nat) (next : list nat) (tape : list bool) (visited : list nat)
   : list clean_entry * list nat :=
   match cur with
   | [] => ([], [])
   | x :: cur' =>
-      if n_exp (get d x) then block_level_log N cfg check_maa opt_src size_limit d cur' next tape else
+      if n_exp (get d x) then
+        (if mem_nat x visited then block_level_log N cfg check_maa opt_src size_limit d cur' next tape visited
+         else block_level_log N cfg check_maa opt_src size_limit d cur' (union_nat next (successors d x)) tape (x :: visited))
+      else
+      let visited := x :: visited in
       if over_limit size_limit d then ([], []) else
       let sp := n_space (get d x) in
       let srcs := sources_in_b N sp in
@@ -42,7 +46,7 @@ Fixpoint block_level_log (N : net) (cfg : config) (check_maa opt_src : bool) (si
         else
           let '(d1, kids) := ensure_children N d x (map (merge sp) (source_valuations (nvars N) srcs)) [] in
           let d2 := set_empty_seeds (clear_cands (upd_node d1 x (fun y => set_exp y true)) x) x in
-          let '(lg, em) := block_level_log N cfg check_maa opt_src size_limit d2 cur' (union_nat next kids) tape in
+          let '(lg, em) := block_level_log N cfg check_maa opt_src size_limit d2 cur' (union_nat next kids) tape visited in
           (lg, x :: em)
       else
         let '(d1, r, succ0) := node_successors N cfg d x in
@@ -50,35 +54,35 @@ Fixpoint block_level_log (N : net) (cfg : config) (check_maa opt_src : bool) (si
         | RUnit =>
             let succ := sort_nat succ0 in
             match succ with
-            | [] => block_level_log N cfg check_maa opt_src size_limit d1 cur' next tape
+            | [] => block_level_log N cfg check_maa opt_src size_limit d1 cur' next tape visited
             | [s] => if negb check_maa
-                     then block_level_log N cfg check_maa opt_src size_limit d1 cur' (union_nat next [s]) tape
+                     then block_level_log N cfg check_maa opt_src size_limit d1 cur' (union_nat next [s]) tape visited
                      else
                        let blocks := sort_blocks (minimal_blocks (group_blocks N d1 x succ)) in
                        let here := first_clean_log sp (first_motif d1 x) blocks tape in
                        let '(clean, tape1) := first_clean blocks tape in
                        match clean with
                        | Some ns =>
-                           let '(lg, em) := block_level_log N cfg check_maa opt_src size_limit (set_empty_seeds d1 x) cur' (union_nat next ns) tape1 in
+                           let '(lg, em) := block_level_log N cfg check_maa opt_src size_limit (set_empty_seeds d1 x) cur' (union_nat next ns) tape1 visited in
                            (here ++ lg, x :: em)
                        | None =>
-                           let '(lg, em) := block_level_log N cfg check_maa opt_src size_limit d1 cur' (union_nat next succ) tape1 in
+                           let '(lg, em) := block_level_log N cfg check_maa opt_src size_limit d1 cur' (union_nat next succ) tape1 visited in
                            (here ++ lg, em)
                        end
             | _ =>
                 let blocks := sort_blocks (minimal_blocks (group_blocks N d1 x succ)) in
                 if negb check_maa
                 then block_level_log N cfg check_maa opt_src size_limit d1 cur'
-                                 (union_nat next (match blocks with (_, ns) :: _ => ns | [] => [] end)) tape
+                                 (union_nat next (match blocks with (_, ns) :: _ => ns | [] => [] end)) tape visited
                 else
                   let here := first_clean_log sp (first_motif d1 x) blocks tape in
                   let '(clean, tape1) := first_clean blocks tape in
                   match clean with
                   | Some ns =>
-                      let '(lg, em) := block_level_log N cfg check_maa opt_src size_limit (set_empty_seeds d1 x) cur' (union_nat next ns) tape1 in
+                      let '(lg, em) := block_level_log N cfg check_maa opt_src size_limit (set_empty_seeds d1 x) cur' (union_nat next ns) tape1 visited in
                       (here ++ lg, x :: em)
                   | None =>
-                      let '(lg, em) := block_level_log N cfg check_maa opt_src size_limit d1 cur' (union_nat next succ) tape1 in
+                      let '(lg, em) := block_level_log N cfg check_maa opt_src size_limit d1 cur' (union_nat next succ) tape1 visited in
                       (here ++ lg, em)
                   end
             end
@@ -87,17 +91,17 @@ Fixpoint block_level_log (N : net) (cfg : config) (check_maa opt_src : bool) (si
   end.
 
 Fixpoint block_loop_log (fuel : nat) (N : net) (cfg : config) (check_maa opt_src : bool) (size_limit : option nat)
-         (d : sd) (cur : list nat) (tape : list bool) : list clean_entry * list nat :=
+         (d : sd) (cur : list nat) (tape : list bool) (visited : list nat) : list clean_entry * list nat :=
   match fuel with
   | O => ([], [])
   | S f =>
       match cur with
       | [] => ([], [])
       | _ =>
-          let '(d1, r, next, tape1) := block_level N cfg check_maa opt_src size_limit d (sort_nat cur) [] tape in
-          let '(lg, em) := block_level_log N cfg check_maa opt_src size_limit d (sort_nat cur) [] tape in
+          let '(d1, r, next, tape1, visited1) := block_level N cfg check_maa opt_src size_limit d (sort_nat cur) [] tape visited in
+          let '(lg, em) := block_level_log N cfg check_maa opt_src size_limit d (sort_nat cur) [] tape visited in
           match r with
-          | RUnit => let '(lg2, em2) := block_loop_log f N cfg check_maa opt_src size_limit d1 next tape1 in
+          | RUnit => let '(lg2, em2) := block_loop_log f N cfg check_maa opt_src size_limit d1 next tape1 visited1 in
                      (lg ++ lg2, em ++ em2)
           | _ => (lg, em)
           end
@@ -106,7 +110,7 @@ Fixpoint block_loop_log (fuel : nat) (N : net) (cfg : config) (check_maa opt_src
 
 Definition expand_block_log (fuel : nat) (N : net) (cfg : config) (d : sd) (check_maa opt_src : bool)
            (size_limit : option nat) (tape : list bool) : list clean_entry * list nat :=
-  block_loop_log fuel N cfg check_maa opt_src size_limit d [0] tape.
+  block_loop_log fuel N cfg check_maa opt_src size_limit d [0] tape [].
 
 (* the contract of the tape: every positive answer is justified *)
 Definition clean_log_ok (N : net) (lg : list clean_entry) : Prop :=
